@@ -256,7 +256,7 @@ def sinusoidal(cfg, V, D, P, obs):
 def configs(tier):
     cfgs = []
     P = (3, 4) if tier == 'quick' else (1, 2, 3, 4, 5)
-    K = (-5, 0, 2, 4) if tier == 'quick' else (-8, -5, -4, -3, -2, 0, 1, 2, 3, 4, 5, 6, 8)
+    K = (-8, -5, 0, 2, 4) if tier == 'quick' else (-11, -8, -5, -4, -3, -2, 0, 1, 2, 3, 4, 5, 6, 8)
     for p in P:
         for k in K:
             for neg in (False, True):
@@ -265,6 +265,7 @@ def configs(tier):
             for dr in ('sym', 'pi', 'half'):
                 cfgs.append({'kind': 'display', 'helper': 'abs', 'k': k, 'p': p, 'dir': dr})
             for h in ('resistance', 'conductance', 'capacitance', 'inductance'):
+                if k < -5 and h in ('capacitance', 'inductance'): continue
                 cfgs.append({'kind': 'display', 'helper': h, 'k': k if h in ('resistance', 'conductance') else k - 7, 'p': p})
             for deg in (False, True):
                 for dr in ('sym', 'zero', 'pi', 'half', '-half'):
